@@ -414,7 +414,9 @@ def group_form_integrals(form, domains, do_append_everywhere_integrals=True):
                     # we can now put the integrals back together and then afterwards
                     # apply the CoordinateDerivative again
 
-                    for cdhash, samecd_integrals in sorted_by_key(coordderiv_integrals_dict):
+                    # NB: Iterate in order of first appearance, not sorted by the hash:
+                    # the hash depends on PYTHONHASHSEED through the hash of terminal reprs
+                    for cdhash, samecd_integrals in coordderiv_integrals_dict.items():
                         # Accumulate integrands of integrals that share the
                         # same compiler data
                         integrands_and_cds = accumulate_integrands_with_same_metadata(
